@@ -201,6 +201,32 @@ def rule_i2(repo):
                     'reads %s' % sorted(hf) if ok else
                     ('hash reads %s which equality ignores: equal objects may hash differently' % sorted(extra) if extra
                      else 'no hash value produced for this kind'), hs.loc)
+    # --- equality consults nothing but the identity token, the kind tag and the structural fields: memoised
+    # values (hashes, sizes) are dropped only on the nodes an in-place update visits, so a parent that shares
+    # a sub-term with an updated term keeps stale ones, and a verdict based on them is wrong
+    for rel, clsname, kinds, kcls in ((TERM, 'Term', TERM_KINDS, KIND_CLASS), (TYPE, 'Type', TYPE_KINDS, TKIND_CLASS)):
+        cls = repo.cls(rel, clsname)
+        eq = cls.methods['__eq__']
+        other = eq.params()[1]
+        allowed = {'ty', '_id'}
+        for k in kinds:
+            allowed |= {f for f in _init_fields(repo.cls(rel, kcls[k]))}
+        read = set()
+        for n in ast.walk(eq.node):
+            if isinstance(n, ast.Attribute) and isinstance(n.value, ast.Name) and n.value.id in ('self', other):
+                if n.attr in cls.methods or n.attr.isupper():
+                    continue
+                read.add(n.attr)
+            if isinstance(n, ast.Call) and call_name(n) in ('getattr', 'hasattr') and len(n.args) >= 2 and \
+                    isinstance(n.args[0], ast.Name) and n.args[0].id in ('self', other) and isinstance(n.args[1], ast.Constant):
+                read.add(n.args[1].value)
+            if isinstance(n, ast.Call) and call_name(n) == 'hash' and n.args and isinstance(n.args[0], ast.Name) and n.args[0].id in ('self', other):
+                read.add('__hash__')
+        extra = sorted(read - allowed)
+        res.add('%s :: %s.__eq__ :: reads-structure-only' % (rel, clsname), not extra,
+                'reads %s' % sorted(read) if not extra else
+                'equality consults %s, which is not part of the structure of the object: a memoised value can be stale after an in-place '
+                'type instantiation of a shared sub-term, and equal terms then compare unequal' % extra, eq.loc)
     # --- every kind has a branch in the structural recursions
     term = repo.cls(TERM, 'Term')
     for meth in ('__eq__', '__hash__', '__copy__', 'size', 'subst_type', 'subst_type_inplace', 'occurs_var', 'beta_norm'):
